@@ -149,6 +149,8 @@ class Run:
             "samples": self.samples[:6],
             "correspondence_answers_compared": self.corr_checked,
             "correspondence_disagreements": len(self.corr_bad),
+            "correspondence_first_disagreements": [{"case": str(k[0]), "query": " ".join(map(str, q))[:200], "impl": str(a)[:400], "model": str(m)[:400]}
+                                                   for (k, q, a, m) in self.corr_bad[:3]],
             "known_findings_replayed": sorted(v.known_hit.keys()),
             "distribution": self.stats,
         }
